@@ -83,7 +83,8 @@ def updater_decl(var):
 def schema_for(spec):
     schema = {}
     for var in spec['vars']:
-        decl = {'_default': mk(var, var['init']), '_emit': True}
+        decl = {'_default': mk(var, var['init'], var.get('init_unit')),
+                '_emit': True}
         u = updater_decl(var)
         if u is not None:
             decl['_updater'] = u
@@ -129,6 +130,9 @@ def expected_final(spec):
         fam = var['family']
         if fam == 'q':
             cur = float(var['init']) if isinstance(var['init'], float) else var['init']
+            if var.get('init_unit'):
+                # the value starts out in another compatible unit
+                cur = ref.convert(cur, var['init_unit'], var['unit'])
         else:
             cur = mk(var, var['init'])
         for upd in spec['batch']:
@@ -157,6 +161,8 @@ def classify(spec, res):
                 res.label('override')
             if entry.get('unit'):
                 res.label('unit.converted')
+    if any(v.get('init_unit') for v in spec['vars']):
+        res.label('unit.initial_value_in_other_unit')
     if any(n >= 2 for n in hits.values()):
         res.label('batch.multi_hit')
     for var in spec['vars']:
@@ -193,7 +199,8 @@ def run_case(spec):
                   for n, node in nodes.items()}
         # initial values
         for var in spec['vars']:
-            d = deq(nodes[var['name']].value, mk(var, var['init']))
+            d = deq(nodes[var['name']].value,
+                    mk(var, var['init'], var.get('init_unit')))
             if d:
                 res.fail('initial', '%s: %s' % (var['name'], d))
                 return res
@@ -239,6 +246,8 @@ def run_case(spec):
                 if not isinstance(got, Quantity):
                     res.fail('units.lost', '%s holds %r' % (name, got))
                     continue
+                if name not in hits and var.get('init_unit'):
+                    continue    # never updated: still as it was declared
                 if got.units != unit_of(var['unit']):
                     res.fail('units.wrong', '%s holds %r, declared %s'
                              % (name, got, var['unit']))
@@ -379,6 +388,12 @@ def strategy_(draw, tier):
             var = {'name': name, 'path': list(path), 'family': 'q', 'kind': 'q',
                    'updater': updater, 'init': draw(mag), 'unit': unit,
                    'declare_units': draw(st.booleans())}
+            if var['declare_units'] and draw(st.integers(0, 2)) == 0:
+                # the default is written in another compatible unit than the
+                # declared _units
+                other = draw(st.sampled_from(group))
+                if other != unit:
+                    var['init_unit'] = other
             for j in range(nupd):
                 if mention[j]:
                     entry = {'v': draw(mag)}
